@@ -326,7 +326,19 @@ func run(c Scenario) evid.Verdict {
 		}
 		return evid.Fail("harness", "scenario watchdog expired without gokrb5 frames")
 	}
-	cl.Destroy()
+	// the final Destroy is a call on the shared client like any other: it must come back too
+	destroyed := make(chan struct{})
+	go func() { cl.Destroy(); close(destroyed) }()
+	select {
+	case <-destroyed:
+	case <-time.After(30 * time.Second):
+		buf := make([]byte, 1<<20)
+		st := string(buf[:runtime.Stack(buf, true)])
+		if strings.Contains(st, "github.com/jcmturner/gokrb5/v8/client") {
+			return evid.Fail("deadlock:"+blockedIn(st), "every operation of the scenario had returned, but the final Destroy did not return within 30 s; goroutines are blocked inside gokrb5:\n%s", firstLines(st, 80))
+		}
+		return evid.Fail("harness", "Destroy watchdog expired without gokrb5 frames")
+	}
 	renewals := 0
 	for _, is := range w.IssuedAll() {
 		if is.Kind == "RENEW" {
@@ -390,7 +402,7 @@ func run(c Scenario) evid.Verdict {
 }
 
 func blockedIn(stack string) string {
-	m := regexp.MustCompile(`github\.com/jcmturner/gokrb5/v8/(client\.[^\s(]+)`).FindStringSubmatch(stack)
+	m := regexp.MustCompile(`github\.com/jcmturner/gokrb5/v8/(client\.(?:\(\*?\w+\)\.)?\w+)`).FindStringSubmatch(stack)
 	if m != nil {
 		return m[1]
 	}
@@ -563,5 +575,11 @@ func TestProp(t *testing.T) {
 			r.Label("background-or-on-demand-ticket-renewals")
 		}
 		r.Violation("scenario", c, v)
+		if !v.OK && strings.HasPrefix(v.Sig, "deadlock") {
+			// the blocked goroutines stay behind and every further scenario that deadlocks costs another minute of
+			// watchdog: one report is enough
+			r.Label("stopped-after-deadlock")
+			break
+		}
 	}
 }
